@@ -22,18 +22,37 @@ TARGETS = [
         defers=dict(rettype='int'),
         marks={'count': 1, 0: dict(name='WI', frame=['this', 'ret', 'cnt', 'eno', 'errno', 'ret_', 'OTH_SIG', 'N_WAIT', 'N_RESUME'],
                effects={'SEM_try_subtract_c': ['this'], 'waitq_wait_defer': ['this', 'errno', 'N_WAIT'], 'spin_lock': ['this'], 'SEM_try_resume': ['N_RESUME'], 'atomic_load': ['this']}, pure=[])}),
+    Target('try_resume', TC, r'void semaphore::try_resume\(uint64_t cnt\)',
+        scoped=dict(items=[(r'ScopedLockHead h\(this\);', 'struct thread2 *h = SLH_ctor(this);', 'SLH_dtor(h);'),
+                           (r'SCOPED_LOCK\(th->lock\);', 'scan_lock(th);', 'scan_unlock(th);')], rettype='void'),
+        defers=dict(rettype='void', scoped_lock=('wq_lock(this) /* {0} */', 'wq_unlock(this) /* {0} */')),
+        rules=[(r'\(thread\*\)h', 'h', 1),
+               # `auto& c = th->semaphore_count;` is only read; nothing between its definition and its uses writes the demand
+               (r'auto& c = th->semaphore_count;', 'uint64_t c = th->semaphore_count;', 1),
+               (r'(\bq\.th|\bth)->next\(\)', r'ring_next(this, \1)', 1),
+               fields_rule(['q', 'm_ooo_resume'])],
+        marks={'count': 2,
+               0: dict(name='IO', frame=['cnt', 'h', 'th', 'c', 'SCANT', 'Q_LEN', 'WOKEN_SUM', 'N_WOKEN', 'N_TLOCK', 'HEADT', 'HEAD_DEMAND', 'this'],
+                       effects={'SLH_ctor': ['HEADT', 'N_TLOCK', 'HEAD_DEMAND', 'this'], 'SLH_dtor': ['HEADT', 'N_TLOCK'],
+                                'prelocked_thread_interrupt': ['HEADT', 'SCANT', 'Q_LEN', 'WOKEN_SUM', 'N_WOKEN']}, pure=[], ptr_targets={'h': ['HEADT'], 'th': ['HEADT']}),
+               1: dict(name='SC', frame=['cnt', 'th', 'c', 'Q_LEN', 'WOKEN_SUM', 'N_WOKEN', 'N_TLOCK', 'SCANT', 'HEADT', 'FOREIGN', 'SCAN_POS'],
+                       effects={'scan_lock': ['SCANT', 'HEADT', 'FOREIGN', 'N_TLOCK'], 'scan_unlock': ['SCANT', 'HEADT', 'FOREIGN', 'N_TLOCK'], 'ring_next': ['SCANT', 'SCAN_POS'],
+                                'prelocked_thread_interrupt': ['HEADT', 'SCANT', 'Q_LEN', 'WOKEN_SUM', 'N_WOKEN']}, pure=[], ptr_targets={'th': ['SCANT', 'HEADT', 'FOREIGN']})}),
 ]
-UNITS = {'sem.c': 'sem.c.in'}
+UNITS = {'sem.c': 'sem.c.in', 'resume.c': 'resume.c.in'}
 PROOFS = [
     Proof('try_subtract', 'sem.c', 'h_try_subtract', kind='L', min_obligations=4),
     Proof('signal', 'sem.c', 'h_signal', kind='L', min_obligations=4),
     Proof('wait_interruptible', 'sem.c', 'h_wait_interruptible', kind='L', min_obligations=6, backend='cadical'),
+    Proof('try_resume/in_order', 'resume.c', 'h_try_resume', kind='L', min_obligations=8),
+    Proof('try_resume/out_of_order', 'resume.c', 'h_try_resume', kind='L', defines=['OOO'], min_obligations=8),
     Proof('lemma/conservation', 'sem.c', 'lemma_conservation', kind='L', min_obligations=2, backend='cadical'),
 ]
-NATIVES = []
+NATIVES = [Native('native', 'native.cpp', args_quick=[300], args_thorough=[20000], timeout=3000, link_photon=True, cxxflags=['-fpermissive'])]
+REPLAY = 'native'
 AUX_VIOLATION = True    # no native oracle: a failing loop-rule obligation is reported (no-failing-input-found), see DESIGN §4
 TRUSTED = ['cbmc 6.11.0', 'lowering rules of specs/C02/spec.py']
 NOT_DECIDED = ['no lost wake-up (liveness: a signal arriving between a failed try_subtract and the sleep), beyond "the waiter is queued while holding the lock"',
-               'try_resume queue walk (which waiters are woken)', 'safe destruction after wait returns (object lifetime across the context switch)',
+               'out-of-order resume scan: known finding (self-deadlock), see known_findings.txt', 'safe destruction after wait returns (object lifetime across the context switch)',
                'memory ordering (atomics are modelled sequentially consistent)']
 ASSUMPTIONS = ['every writer of semaphore::m_count in /repo takes splock first (closed world over signal / wait_interruptible)']
